@@ -239,7 +239,7 @@ def execute(spec):
             counter["n"] += 1
             return {"block": k, "u_cap": None}
 
-        out = genrun.run_molecule(text, None, props=("C07",), embed="stub", ast=ast, sched_obj=QSched(), draw_ctx_fn=ctx_fn, wall=60,
+        out = genrun.run_molecule(text, None, props=("C07",), embed="stub", ast=ast, sched_obj=QSched(), draw_ctx_fn=ctx_fn, wall=150,
                                   reuse_obj=parsed.get("obj"))
         if out.mol_obj is not None:
             parsed["obj"] = out.mol_obj
@@ -254,7 +254,7 @@ def execute(spec):
         return [recs.get(ei) for ei in stoch_idx], out.smiles, out.mol_obj, out.result
 
     old = signal.signal(signal.SIGALRM, _alarm)
-    signal.alarm(280)
+    signal.alarm(700)
     try:
         base_us = [0.5] * nb
         # per block: probability of every length
@@ -439,7 +439,7 @@ def execute(spec):
                             ks[b] = n_out
                             targets = [(k - 0.5) * ast.elements[stoch_idx[j]].repeats[0].mass for j, k in enumerate(ks)]
                             o = genrun.run_molecule(text, {"seed": spec["seed"], "choice_policy": "first", "draw_policy": "natural", "budget": 6000},
-                                                    props=("C07",), embed="stub", ast=ast, forced_draws=targets, wall=60, reuse_obj=parsed.get("obj"))
+                                                    props=("C07",), embed="stub", ast=ast, forced_draws=targets, wall=150, reuse_obj=parsed.get("obj"))
                             stats["generations"] += 1
                             if o.harness_error or o.exc is not None or o.result is None:
                                 continue
